@@ -15,7 +15,7 @@ def require_reach(ctx):
     """a run whose generated cases miss one of the required kinds is reported (not silently accepted)"""
     if ctx.get("replay"):
         return {}
-    dist = json.load(open(os.path.join(ctx["build"], "cases", "C09", "meta.json"))).get("distribution", {})
+    dist = json.load(open(os.path.join(ctx.get("case_dir") or os.path.join(ctx["build"], "cases", "C09"), "meta.json"))).get("distribution", {})
     cov = {"reach " + t: dist.get(t, 0) for t in REQUIRED_TAGS}
     missing = [t for t in REQUIRED_TAGS if not dist.get(t, 0)]
     violations = []
